@@ -114,8 +114,10 @@ func (o *Op) String() string {
 	return s
 }
 
+var debugFull = os.Getenv("VSIM_DEBUG_FULL") == "1"
+
 func clip(s string, n int) string {
-	if len(s) > n {
+	if len(s) > n && !debugFull {
 		return s[:n] + "…"
 	}
 	return s
@@ -524,7 +526,7 @@ func (w *World) execOp(t *Task, idx int) {
 		}
 	}
 	// outcomes are part of the run's event digest (R-order compares digests across process orders)
-	simrt.Mix(fnv(o.Got) ^ fnv(o.GotLog)<<1)
+	simrt.Mix(fnv(fmt.Sprintf("%d/%d|%s|%s", t.id, idx, o.Got, o.GotLog)))
 	if len(t.rec.Calls) > 0 {
 		for _, c := range t.rec.Calls {
 			if c.Fail {
